@@ -57,11 +57,17 @@ def kindLetter : Kind → String
   | .outProfile => "O"
   | _ => "?"
 
+/-- is anything in the hook value cache?  Printed for roll templates, pass rolls and plain profiles: there it is
+determined by the ops (a template's / a plain profile's cache is filled by the CALLER only, a pass roll's by the
+caller or by a solve of its pass) -/
+def cacheFlag (h : H) (o : Nat) : String := if (h.obj o).cache.isEmpty then "0" else "1"
+
 def showProf (h : H) (n : Num) (p : Nat) : Num × String :=
   let (n1, c) := clsOf n p
   let (n2, fs) := showFields h p n1
   let (n3, w) := showWeak n2 (h.obj p).weak
-  (n3, s!"p{c}:{kindLetter (h.obj p).kind}\{{fs};w={w}}")
+  let cf := if (h.obj p).kind = .profile then s!";c={cacheFlag h p}" else ""
+  (n3, s!"p{c}:{kindLetter (h.obj p).kind}\{{fs};w={w}{cf}}")
 
 def showOptProf (h : H) (n : Num) (p : Option Nat) : Num × String :=
   match p with
@@ -75,7 +81,7 @@ def showRoll (h : H) (n : Num) (r : Option Nat) : Num × String :=
     let (n1, c) := clsOf n r
     let (n2, g) := showWeak n1 (getF h r fGROOVE)
     let (n3, w) := showWeak n2 (h.obj r).weak
-    (n3, s!"r{c}\{g={g};w={w}}")
+    (n3, s!"r{c}\{g={g};w={w};c={cacheFlag h r}}")
 
 def showUnit : Nat → H → Num → Nat → Num × String
   | 0, _, n, u => let (n1, c) := clsOf n u; (n1, s!"u{c}")
@@ -108,7 +114,7 @@ def showSlot (h : H) (n : Num) (o : Nat) : Num × String :=
   | .rollTemplate =>
     let (n1, c) := clsOf n o
     let (n2, g) := showWeak n1 (getF h o fGROOVE)
-    (n2, s!"t{c}\{g={g}}")
+    (n2, s!"t{c}\{g={g};c={cacheFlag h o}}")
   | .passRoll => showRoll h n (some o)
   | .profile => showProf h n o
   | .inProfile => showProf h n o
@@ -262,6 +268,15 @@ def handle (d : DS) (line : String) : DS × String :=
       let o := d.slot u
       ({ d with s := { d.s with h := d.s.h.upd o { d.s.h.obj o with ovr := true } } }, "ok")
     | none => (d, "bad-op")
+  | ["look", ns] =>
+    -- the CALLER read hooks; `ns` = names of the objects whose cache changed by that (observed on the implementation)
+    if ns = "-" then (d, "ok") else
+    let tbl := allNames d
+    let s1 := (ns.splitOn ",").foldl (fun (a : S) nm =>
+      match tbl.lookup nm with
+      | some o => cacheAdd a o 1
+      | none => a) d.s
+    ({ d with s := s1 }, "ok")
   | ["keep", u] =>
     match nat? u with
     | some u =>
